@@ -279,6 +279,9 @@ func (c *SpecCtx) eval(e Expr) Val {
 				}
 			}
 		}
+		if p, ok := c.evalAddr(e.X); ok {
+			return c.selectField(p, e.Sel)
+		}
 		x := c.eval(e.X)
 		return c.selectField(x, e.Sel)
 	case *EIndex:
@@ -415,6 +418,45 @@ func (c *SpecCtx) eval(e Expr) Val {
 	}
 	c.fail("unsupported expression %s", e)
 	return Val{}
+}
+
+// evalAddr: pointer to the struct denoted by an addressable expression (s[i], p.f, *p),
+// so that field selection reads one cell instead of loading the whole struct.
+func (c *SpecCtx) evalAddr(e Expr) (Val, bool) {
+	switch e := e.(type) {
+	case *EIndex:
+		id, isId := e.X.(*EIdent)
+		if isId {
+			if _, bound := c.bound[id.Name]; !bound {
+				if _, ok := c.lookup(id.Name); !ok {
+					return Val{}, false
+				}
+			}
+		}
+		x := c.eval(e.X)
+		if x.Typ == nil {
+			return Val{}, false
+		}
+		sl, ok := x.Typ.Underlying().(*types.Slice)
+		if !ok {
+			return Val{}, false
+		}
+		if _, isStruct := sl.Elem().Underlying().(*types.Struct); !isStruct {
+			return Val{}, false
+		}
+		i := c.materialize(c.eval(e.I), types.Typ[types.Int])
+		return Val{T: c.enc().elemPtr(x.T, c.toInt(i)), Typ: types.NewPointer(sl.Elem())}, true
+	case *EUnary:
+		if e.Op == "*" {
+			x := c.eval(e.X)
+			if pt, ok := x.Typ.Underlying().(*types.Pointer); ok {
+				if _, isStruct := pt.Elem().Underlying().(*types.Struct); isStruct {
+					return x, true
+				}
+			}
+		}
+	}
+	return Val{}, false
 }
 
 // toInt converts an integer-typed value to the index sort I.
